@@ -787,6 +787,12 @@ fn generate_variant_map_internal(
                 );
             }
 
+            // A term without letters or digits ("(", "_") has no tokens: its styled form is empty
+            // and an empty key would match between any two characters
+            if search_variant.is_empty() {
+                continue;
+            }
+
             map.entry(search_variant).or_insert(replace_variant);
         }
     }
